@@ -376,3 +376,241 @@ Definition int_prop_get (h : headers) (name : str) : out :=
   | None => ONone
   | Some s => match parse_dec s with Some z => OInt z | None => ONone end
   end.
+
+(* ================================================================== ContentRange *)
+Record crange := { cr_units : option str; cr_start : option Z; cr_stop : option Z; cr_length : option Z }.
+Definition cr_none : crange := {| cr_units := None; cr_start := None; cr_stop := None; cr_length := None |}.
+
+(* http.is_byte_range_valid *)
+Definition byte_range_valid (start stop length : option Z) : bool :=
+  match start, stop with
+  | None, Some _ | Some _, None => false
+  | None, None => match length with None => true | Some l => (0 <=? l)%Z end
+  | Some s, Some e =>
+      match length with
+      | None => (0 <=? s)%Z && (s <? e)%Z
+      | Some l => if (e <=? s)%Z then false else (0 <=? s)%Z && (s <? l)%Z
+      end
+  end.
+
+Definition SLASH : N := 47.
+Definition DASH : N := 45.
+(* ContentRange.to_header; a start without a stop makes the f-string raise TypeError *)
+Definition cr_to_header (c : crange) : res str :=
+  match cr_units c with
+  | None => Ok []
+  | Some u =>
+      let len := match cr_length c with None => [STAR] | Some l => dec_of_Z l end in
+      match cr_start c with
+      | None => Ok (u ++ [SP; STAR; SLASH] ++ len)
+      | Some s =>
+          match cr_stop c with
+          | None => Err TypeError
+          | Some e => Ok (u ++ [SP] ++ dec_of_Z s ++ [DASH] ++ dec_of_Z (e - 1) ++ [SLASH] ++ len)
+          end
+      end
+  end.
+
+(* _internal._plain_int: strip, then ASCII digits with an optional minus sign *)
+Definition plain_int (s : str) : option Z := parse_dec (strip uni_ws s).
+
+(* str.split(None, 1) of a stripped string into exactly two parts *)
+Definition split_ws1 (s : str) : option (str * str) :=
+  let a := take_while (fun c => negb (uni_ws c)) s in
+  let r := drop_while uni_ws (drop_while (fun c => negb (uni_ws c)) s) in
+  match a, r with
+  | [], _ | _, [] => None
+  | _, _ => Some (a, r)
+  end.
+
+(* http.parse_content_range_header; None = the function returns None *)
+Definition parse_content_range (value : option str) : option crange :=
+  match value with
+  | None => None
+  | Some v =>
+      match split_ws1 (strip uni_ws v) with
+      | None => None
+      | Some (units, rangedef) =>
+          match partition1 SLASH rangedef with
+          | (_, None) => None
+          | (rng, Some length_str) =>
+              let length_r :=
+                if list_eqb length_str [STAR] then Some None
+                else match plain_int length_str with Some l => Some (Some l) | None => None end in
+              match length_r with
+              | None => None
+              | Some length =>
+                  if list_eqb rng [STAR] then
+                    if byte_range_valid None None length
+                    then Some {| cr_units := Some units; cr_start := None; cr_stop := None; cr_length := length |}
+                    else None
+                  else
+                    match partition1 DASH rng with
+                    | (_, None) => None
+                    | (start_str, Some stop_str) =>
+                        match plain_int start_str, plain_int stop_str with
+                        | Some s, Some e0 =>
+                            if byte_range_valid (Some s) (Some (e0 + 1)%Z) length
+                            then Some {| cr_units := Some units; cr_start := Some s; cr_stop := Some (e0 + 1)%Z; cr_length := length |}
+                            else None
+                        | _, _ => None
+                        end
+                    end
+              end
+          end
+      end
+  end.
+
+Definition CONTENT_RANGE : str := [67; 111; 110; 116; 101; 110; 116; 45; 82; 97; 110; 103; 101].
+
+Inductive crattr := CRUnits | CRStart | CRStop | CRLength.
+Inductive crop :=
+| CRSet (start stop length : option Z) (units : option str)
+| CRUnset
+| CRAttrUnits (u : option str)
+| CRAttrInt (a : crattr) (v : option Z).
+
+(* the new view; None = set() refuses an invalid range (AssertionError) *)
+Definition cr_apply (c : crange) (o : crop) : option crange :=
+  match o with
+  | CRSet s e l u => if byte_range_valid s e l then Some {| cr_units := u; cr_start := s; cr_stop := e; cr_length := l |} else None
+  | CRUnset => Some cr_none
+  | CRAttrUnits u => Some {| cr_units := u; cr_start := cr_start c; cr_stop := cr_stop c; cr_length := cr_length c |}
+  | CRAttrInt CRStart v => Some {| cr_units := cr_units c; cr_start := v; cr_stop := cr_stop c; cr_length := cr_length c |}
+  | CRAttrInt CRStop v => Some {| cr_units := cr_units c; cr_start := cr_start c; cr_stop := v; cr_length := cr_length c |}
+  | CRAttrInt _ v => Some {| cr_units := cr_units c; cr_start := cr_start c; cr_stop := cr_stop c; cr_length := v |}
+  end.
+
+(* the on_update callback of Response.content_range *)
+Definition cr_notify (h : headers) (c : crange) : headers * res out :=
+  match content_range_cb (match cr_units c with Some _ => true | None => false end) true with
+  | CbDel => (hd_del_key h CONTENT_RANGE, Ok ONone)
+  | CbSet =>
+      match cr_to_header c with
+      | Err e => (h, Err e)
+      | Ok text => match hd_set h CONTENT_RANGE (VStr text) with
+                   | (h', None) => (h', Ok ONone)
+                   | (h', Some e) => (h', Err e)
+                   end
+      end
+  | CbNone => (h, Ok ONone)
+  end.
+
+(* reading response.content_range: the ContentRange constructor calls set(), which notifies, so the getter itself
+   rewrites the header in normal form, or deletes a Content-Range header that does not parse *)
+Definition cr_read (h : headers) : headers * crange :=
+  let c := match parse_content_range (hd_get_key h CONTENT_RANGE) with Some c => c | None => cr_none end in
+  (fst (cr_notify h c), c).
+Definition cr_parse_h (h : headers) : crange := snd (cr_read h).
+
+Definition crr_step (st : headers * crange) (o : crop) : (headers * crange) * res out :=
+  let '(h, c) := st in
+  match cr_apply c o with
+  | None => ((h, c), Err ValueError)
+  | Some c' => let '(h', r) := cr_notify h c' in ((h', c'), r)
+  end.
+
+Definition out_oz (z : option Z) : out := match z with Some x => OInt x | None => ONone end.
+Definition out_os (s : option str) : out := match s with Some x => OStr x | None => ONone end.
+Definition cr_fields (c : crange) : list out :=
+  [out_os (cr_units c); out_oz (cr_start c); out_oz (cr_stop c); out_oz (cr_length c)].
+Definition crr_obs (st : headers * crange) : list out :=
+  let '(h, c) := st in
+  [header_text h CONTENT_RANGE; OPairs h] ++ cr_fields c ++ cr_fields (cr_parse_h h).
+(* the observation re-reads the property, and the re-read has the side effect described above *)
+Definition crr_after_obs (st : headers * crange) : headers * crange := (fst (cr_read (fst st)), snd st).
+Fixpoint crr_run (st : headers * crange) (ops : list crop) : list (list out) :=
+  match ops with
+  | [] => []
+  | o :: r => let '(st', rs) := crr_step st o in (out_of_res rs :: crr_obs st') :: crr_run (crr_after_obs st') r
+  end.
+
+(* ================================================================== WWWAuthenticate *)
+Record wauth := { wa_type : str; wa_params : cdict; wa_token : option str }.
+Definition BASIC : str := [98; 97; 115; 105; 99].
+Definition DIGEST : str := [100; 105; 103; 101; 115; 116].
+Definition wa_default : wauth := {| wa_type := BASIC; wa_params := []; wa_token := None |}.
+Definition NONE_TXT : str := [78; 111; 110; 101].
+
+Definition wa_digest_item (kv : str * option str) : str :=
+  let v := match snd kv with Some v => v | None => NONE_TXT end in     (* quote_header_value(None) is the text None *)
+  fst kv ++ [EQ] ++ quote_header_value (negb (smem (fst kv) wa_digest_quoted)) v.
+
+Definition wa_to_header (w : wauth) : str :=
+  match wa_token w with
+  | Some t => title (wa_type w) ++ [SP] ++ t
+  | None =>
+      if list_eqb (wa_type w) DIGEST
+      then [68; 105; 103; 101; 115; 116; 32] ++ join COMMA_SP (map wa_digest_item (wa_params w))
+      else title (wa_type w) ++ [SP] ++ dump_dict (wa_params w)
+  end.
+
+(* from_header; the outer None = returns None, the inner None = a parameter key in RFC 2231 form (not modelled) *)
+Definition wa_from_header (value : option str) : option (option wauth) :=
+  match value with
+  | None | Some [] => None
+  | Some v =>
+      let '(scheme, rest0) := partition1 SP v in
+      let rest := strip uni_ws (match rest0 with Some r => r | None => [] end) in
+      if mem EQ (rstrip (fun c => c =? EQ) rest)
+      then match parse_dict_header rest with
+           | Some d => Some (Some {| wa_type := lower scheme; wa_params := d; wa_token := None |})
+           | None => Some None
+           end
+      else Some (Some {| wa_type := lower scheme; wa_params := []; wa_token := Some rest |})
+  end.
+
+Definition WWW_AUTH : str := [87; 87; 87; 45; 65; 117; 116; 104; 101; 110; 116; 105; 99; 97; 116; 101].
+Definition wa_read (h : headers) : option wauth :=
+  match wa_from_header (hd_get_key h WWW_AUTH) with
+  | None => Some wa_default
+  | Some w => w
+  end.
+
+Inductive waop :=
+| WASetItem (k : str) (v : option str) | WADelItem (k : str)
+| WASetAttr (name : str) (v : option str)         (* auth.name = v for a name that is not type / token / parameters *)
+| WASetType (s : str) | WASetToken (t : option str) | WASetParams (d : cdict)
+| WAParams (o : dop (option str)).                 (* an operation on auth.parameters *)
+
+Definition wa_with_params (w : wauth) (d : cdict) : wauth := {| wa_type := wa_type w; wa_params := d; wa_token := wa_token w |}.
+
+(* (view, result, notified) *)
+Definition wa_step (w : wauth) (o : waop) : wauth * res out * bool :=
+  match o with
+  | WASetItem k v | WASetAttr k v =>
+      if match o with WASetAttr _ _ => smem k wa_direct_attrs | _ => false end then (w, Err TypeError, false)
+      else match v with
+           | None => (wa_with_params w (ad_del k (wa_params w)), Ok ONone, true)
+           | Some s => (wa_with_params w (ad_set k (Some s) (wa_params w)), Ok ONone, true)
+           end
+  | WADelItem k => if ad_mem k (wa_params w) then (wa_with_params w (ad_del k (wa_params w)), Ok ONone, true) else (w, Ok ONone, false)
+  | WASetType s => ({| wa_type := s; wa_params := wa_params w; wa_token := wa_token w |}, Ok ONone, true)
+  | WASetToken t => ({| wa_type := wa_type w; wa_params := wa_params w; wa_token := t |}, Ok ONone, true)
+  | WASetParams d => (wa_with_params w d, Ok ONone, true)
+  | WAParams o => let '(d', r, f) := d_step ov_opt (wa_params w) o in (wa_with_params w d', r, f)
+  end.
+
+Definition war_step (st : headers * wauth) (o : waop) : (headers * wauth) * res out :=
+  let '(h, w) := st in
+  let '(w', r, fired) := wa_step w o in
+  if fired then
+    match hd_set h WWW_AUTH (VStr (wa_to_header w')) with
+    | (h', None) => ((h', w'), r)
+    | (h', Some e) => ((h', w'), Err e)
+    end
+  else ((h, w'), r).
+
+Definition wa_fields (w : option wauth) : list out :=
+  match w with
+  | Some w => [OStr (wa_type w); out_os (wa_token w); out_of_cdict (wa_params w)]
+  | None => [OErr TypeError; OErr TypeError; OErr TypeError]
+  end.
+Definition war_obs (st : headers * wauth) : list out :=
+  let '(h, w) := st in
+  [header_text h WWW_AUTH; OPairs h] ++ wa_fields (Some w) ++ wa_fields (wa_read h).
+Fixpoint war_run (st : headers * wauth) (ops : list waop) : list (list out) :=
+  match ops with
+  | [] => []
+  | o :: r => let '(st', rs) := war_step st o in (out_of_res rs :: war_obs st') :: war_run st' r
+  end.
